@@ -12,7 +12,7 @@ MANIFEST = {
     'text': 'Every sequence of <= 5 (thorough 6) tokens over a 16-token alphabet, every string of <= 4 characters over 20 characters, '
             'every single token deletion/insertion/replacement of every valid formula with <= 2 operators and every numeral spelling '
             'over three digits is given to the real parser: it must return or raise FormulaError (totality), agree with a reference '
-            'recogniser on accept/reject, and export the reference rendering for accepted input. A juxtaposition space puts 14 complete operand units side by side inside 10 contexts. Further spaces: every sequence of <= 4 (5) tokens over 14 that contains the range operator as a token of its own (rejected when an operand is missing on either side); every text without leading = made of 12 prefixes and <= 3 further characters (only a lone error literal is a formula); a defined name spelled like a function called in the same formula, in both orders; special reference tokens next to ordinary references under every reference operator.' ' Later additions: the range operator as a token, text without leading "=" (also array-formula braces followed by more text), names spelled like called functions, hostless relative references, the spill operator over names, and every token sequence of <= 3 (thorough 4) tokens followed by !#REF! (only a sheet name may precede a qualified error literal).',
+            'recogniser on accept/reject, and export the reference rendering for accepted input. A juxtaposition space puts 14 complete operand units side by side inside 10 contexts. Further spaces: every sequence of <= 4 (5) tokens over 14 that contains the range operator as a token of its own (rejected when an operand is missing on either side); every text without leading = made of 12 prefixes and <= 3 further characters (only a lone error literal is a formula); a defined name spelled like a function called in the same formula, in both orders; special reference tokens next to ordinary references under every reference operator.' ' Later additions: the range operator as a token, text without leading "=" (also array-formula braces followed by more text), names spelled like called functions, hostless relative references, the spill operator over names, and every token sequence of <= 3 (thorough 4) tokens followed by !#REF! (only a sheet name may precede a qualified error literal). Array constants by the widths of their rows: every tuple of row widths over 1..3 for up to 4 rows (thorough 1..4, up to 5 rows), mixed element kinds, in 4 contexts: accepted exactly when all rows are equally wide.',
     'note': 'Trusted: ref/grammar.py recogniser. Sequences whose tokens merge lexically, x%%, parenthesised operands next to a space, '
             'and top-level unions are judged for totality only.',
 }
@@ -499,8 +499,41 @@ def run_errsheet(case):
     return result(n, list(oc), fails[:50])
 
 
+def arrshape_cases(tier):
+    """array constants by the widths of their rows: rectangular ones are formulas, ragged ones are not (whatever row is the odd one)."""
+    for nrows in range(1, 5 if tier == 'quick' else 6):
+        yield ['arrshape', nrows, 3 if tier == 'quick' else 4]
+
+
+def run_arrshape(case):
+    _, nrows, wmax = case
+    install_probe()
+    fails, oc, n = [], {}, 0
+    elems = ['1', '"a"', 'TRUE', '#N/A', '-2']
+    for widths in itertools.product(range(1, wmax + 1), repeat=nrows):
+        k = 0
+        rows = []
+        for w in widths:
+            rows.append(','.join(elems[(k + j) % len(elems)] for j in range(w)))
+            k += w
+        arr = '{' + ';'.join(rows) + '}'
+        exp = 'VALID' if len(set(widths)) == 1 else 'INVALID'
+        for text in ('=' + arr, '=SUM(' + arr + ')', '=1+' + arr, '=SUM(A1,' + arr + ')'):
+            st, b = parse(text)
+            n += 1
+            key = '%s/%s' % (exp, st)
+            oc[key] = oc.get(key, 0) + 1
+            if st.startswith('ESC'):
+                fails.append(Fail('escape', got=st, exp='FormulaError or a formula', text=text, src='arrshape', feat='arrshape'))
+            elif exp == 'INVALID' and st == 'VALID':
+                fails.append(Fail('accepted-invalid', got=b[-1].get_expr, exp='rejected', text=text, src='arrshape', feat='arrshape'))
+            elif exp == 'VALID' and st == 'INVALID':
+                fails.append(Fail('rejected-valid', got=st, exp=exp, text=text, src='arrshape', feat='arrshape', signrun=G.has_sign_run(text)))
+    return result(n, list(oc), fails[:50])
+
+
 def run_case(case):
-    return {'errsheet': run_errsheet, 'soup': run_soup, 'raw': run_raw, 'edit': run_edit, 'num': run_num, 'juxta': run_juxta, 'special': run_special,
+    return {'arrshape': run_arrshape, 'errsheet': run_errsheet, 'soup': run_soup, 'raw': run_raw, 'edit': run_edit, 'num': run_num, 'juxta': run_juxta, 'special': run_special,
             'colon': run_colon, 'noeq': run_noeq, 'clash': run_clash}[case[0]](case)
 
 
@@ -515,4 +548,5 @@ def run(ctx):
     ctx.explore(run_case, noeq_cases(ctx.tier), chunksize=1, label='text_without_leading_equal_sign')
     ctx.explore(run_case, errsheet_cases(ctx.tier), chunksize=1, label='sheet_qualified_error_literals')
     ctx.explore(run_case, clash_cases(ctx.tier), chunksize=1, label='names_spelled_like_called_functions')
+    ctx.explore(run_case, arrshape_cases(ctx.tier), chunksize=1, label='array_constants_by_row_widths')
     return {'strings_parsed': ctx.transitions}
